@@ -128,10 +128,11 @@ Proof.
     try (intros H; exact (False_ind _ H));
     try (match goal with |- context [if n_term nd <? ?l then _ else _] => destruct (n_term nd <? l) end; cbn [fst snd];
          intros H; exact (False_ind _ H));
-    try (unfold commit; destruct (_ && _); cbn [fst snd]; [intros H K; exfalso; eapply HB; eauto | intros H; exact (False_ind _ H)]);
+    try (destruct (ack_counts rv nd r); cbn [fst snd]; [|intros H; exact (False_ind _ H)];
+         unfold commit; destruct (_ && _); cbn [fst snd]; [intros H K; exfalso; eapply HB; eauto | intros H; exact (False_ind _ H)]);
     try (unfold reconcile; cbn [fst snd]; intros [<-|[]] K; discriminate).
   - destruct (vote_counts rv nd r); cbn [fst snd]; [|intros H; exact (False_ind _ H)].
-    unfold vote_received. destruct (_ <? _); cbn [fst snd]; [|intros H; exact (False_ind _ H)].
+    rewrite vote_received_eq. destruct (_ <? _); cbn [fst snd]; [|intros H; exact (False_ind _ H)].
     intros H K; exfalso; eapply HB; eauto.
   - unfold pre_vote_received. destruct (_ <? _); cbn [fst snd]; [|intros H; exact (False_ind _ H)].
     unfold election; cbn [fst snd]. intros H _. apply in_map_iff in H as [j [<- _]]. cbn. auto.
@@ -367,11 +368,12 @@ Proof.
     try (intros H; exact (False_ind _ H));
     try (match goal with |- context [if n_term nd <? ?l then _ else _] => destruct (n_term nd <? l) end; cbn [fst snd];
          intros H; exact (False_ind _ H));
-    try (unfold commit; destruct (_ && _); cbn [fst snd]; [intros H _; apply HB; exact H | intros H; exact (False_ind _ H)]);
+    try (destruct (ack_counts rv nd r); cbn [fst snd]; [|intros H; exact (False_ind _ H)];
+         unfold commit; destruct (_ && _); cbn [fst snd]; [intros H _; apply HB; exact H | intros H; exact (False_ind _ H)]);
     try (unfold reconcile; cbn [fst snd]; intros [<-|[]] _; cbn; auto).
   - destruct (vote_counts rv nd r); cbn [fst snd]; [|intros H; exact (False_ind _ H)].
-    unfold vote_received. destruct (_ <? _); cbn [fst snd]; [|intros H; exact (False_ind _ H)].
-    intros H _. apply HB. exact H.
+    rewrite vote_received_eq. destruct (_ <? _); cbn [fst snd]; [|intros H; exact (False_ind _ H)].
+    intros H _. apply HB in H. destruct (fix_ack_term rv); rewrite ?local_reset_rows; exact H.
   - unfold pre_vote_received. destruct (_ <? _); cbn [fst snd]; [|intros H; exact (False_ind _ H)].
     unfold election; cbn [fst snd]. intros H K. apply in_map_iff in H as [j [<- _]]. discriminate.
 Qed.
